@@ -19,6 +19,8 @@ RULES = {
     'R9': ('r09_err', 'ERR: syntax errors and dangling references surface as errors'),
     'R12': ('r12_handlers', 'HANDLERS: every opcode has a handler in every dispatcher'),
     'R13': ('r13_grammar', 'GRAMMAR: the visitor consumes everything the grammar can produce'),
+    'R14': ('r14_term', 'TERM: evaluator recursion/loops have a structural termination argument'),
+    'R19': ('r19_flow', 'FLOW/T9: evaluator skeleton and set-operator construction'),
     'R8': ('r08_codec', 'CODEC: writer and reader tables of the dict codecs agree'),
 }
 
@@ -124,17 +126,23 @@ def _p(pid, title, rules, decided, undecided, anchors=(), floor=1, extra_assumpt
 
 
 _p('C01', 'Attack-graph edges are exactly the MAL meaning of the step expressions',
-   ['R1', 'R2', 'R12', 'R8'],
+   ['R1', 'R2', 'R12', 'R8', 'R14', 'R19'],
    decided=['R1: the evaluator never removes from a list it iterates (set operators, sub-type '
             'filter, recursion through callee summaries)',
             'R2: every child link created by generation is mirrored by the converse parent link on '
             'the same two nodes',
             'R12: the evaluator has a case for each of the 9 expression opcodes the compiler can emit',
+            'R14: every recursive call descends structurally (or is the variable expansion), the transitive '
+            'closure is a visited-guarded worklist: generation terminates on cyclic and self-linked models',
+            'R19/T9: per opcode the data flow of the evaluator (same targets for both set operands; union / '
+            'intersection / difference built from genuine membership tests; collect feeds lhs targets into rhs; '
+            'field navigates from every target; subType receiver/argument; variable lookup key)',
             'R8vii: the child lookup name is built with the same template as the full-name index key'],
    undecided=['that the evaluator implements MAL set semantics for every nesting',
               'variable resolution by the first target type', 'transitive start-asset convention'],
    anchors=[('R1', '_process_step_expression'), ('R2', 'AttackGraph._generate_graph'),
-            ('R12', '_process_step_expression'), ('R8', 'AttackGraph._generate_graph')])
+            ('R12', '_process_step_expression'), ('R8', 'AttackGraph._generate_graph'),
+            ('R14', '_process_step_expression'), ('R19', '_process_step_expression')], floor=30)
 
 _p('C02', 'One node per asset x step, with attributes faithful to model and language',
    ['R3', 'R4', 'R12', 'R8'],
